@@ -24,6 +24,7 @@ TRUSTED_BASE = [
     "axioms: subset of {propext, Classical.choice, Quot.sound}, audited with #print axioms on every property theorem; no sorry/admit/native_decide/bv_decide/own axioms (grep on every run)",
     "hand-written Lean model of the code; tied to /repo by the differential correspondence run of this check (sampled, not proved)",
     "harness/extract.py (table translator) and the bpdriver line parser/printer",
+    "harness/extract_src.py (source translator: Python AST of the codec primitives -> lean/BpProofs/Gen/SrcCodec.lean, re-run on every check) and lean/BpProofs/PyPrelude.lean (what the Python primitives it maps to mean)",
     "that each Lean statement in lean/BpProofs/Props says what the English property says",
 ]
 
